@@ -92,6 +92,11 @@ type Opts struct {
 	Deadline time.Duration // 0 = none; hitting it makes the run non-exhaustive
 	NewLocal func(worker int) interface{}
 	MaxFails int // stop collecting (not counting) failures after this many; default 200
+	// ExecTimeout: a single execution running longer than this is reported through
+	// OnHang (the goroutine cannot be killed, so OnHang must end the process).
+	// Default 60s; executions normally take microseconds.
+	ExecTimeout time.Duration
+	OnHang      func(choices []int)
 }
 
 // Stats is what an exploration measured.
@@ -126,6 +131,8 @@ type explorer struct {
 	classCount                                  map[string]int64
 	herr                                        error
 	deadline                                    time.Time
+	started                                     []atomic.Int64
+	current                                     []atomic.Pointer[[]int]
 	timedOut                                    atomic.Bool
 }
 
@@ -148,6 +155,36 @@ func Explore(o Opts, body func(*Ctx)) Stats {
 	e.queue = []task{{}}
 	e.pending = 1
 	locals := make([]interface{}, o.Workers)
+	e.started = make([]atomic.Int64, o.Workers)
+	e.current = make([]atomic.Pointer[[]int], o.Workers)
+	if o.ExecTimeout <= 0 {
+		o.ExecTimeout = 60 * time.Second
+	}
+	stopWatch := make(chan struct{})
+	if o.OnHang != nil {
+		go func() {
+			tk := time.NewTicker(time.Second)
+			defer tk.Stop()
+			for {
+				select {
+				case <-stopWatch:
+					return
+				case <-tk.C:
+					now := time.Now().UnixNano()
+					for w := range e.started {
+						if t0 := e.started[w].Load(); t0 != 0 && now-t0 > int64(o.ExecTimeout) {
+							var ch []int
+							if p := e.current[w].Load(); p != nil {
+								ch = *p
+							}
+							o.OnHang(ch)
+						}
+					}
+				}
+			}
+		}()
+	}
+	defer close(stopWatch)
 	var wg sync.WaitGroup
 	for w := 0; w < o.Workers; w++ {
 		if o.NewLocal != nil {
@@ -287,6 +324,12 @@ func (e *explorer) runOne(c *Ctx, forced []int) {
 	c.fails = c.fails[:0]
 	c.nontrivial = false
 	c.skipped = false
+	if e.started != nil {
+		f := append([]int(nil), forced...)
+		e.current[c.Worker].Store(&f)
+		e.started[c.Worker].Store(time.Now().UnixNano())
+		defer e.started[c.Worker].Store(0)
+	}
 	func() {
 		defer func() {
 			if r := recover(); r != nil {
